@@ -75,7 +75,6 @@ TSpec == TInit /\ [][TNext]_tvars
 
 (* evaluated on every reached state: the invariants of Solve + progress register *)
 Track ==
-  /\ TLCSet(tid, IF l > TLCGet(tid) THEN l ELSE TLCGet(tid))
   /\ Chk("Inv:TypeOK-lite", pc \in {"call0", "handle", "enter", "reinit", "sub", "ret", "done"})
   /\ Chk("Inv:ExactSpan", ExactSpan)
   /\ Chk("Inv:NoOvershoot", NoOvershoot)
@@ -83,6 +82,7 @@ Track ==
   /\ Chk("Inv:SuccessHasGoodFlag", SuccessHasGoodFlag)
   /\ Chk("Inv:FailOnBadFlag", FailOnBadFlag)
   /\ Chk("Inv:InitialLogged", InitialLogged)
+  /\ TLCSet(tid, IF l > TLCGet(tid) THEN l ELSE TLCGet(tid))   \* progress register: only states that satisfy every invariant count
 
 Verdicts == \A i \in 1..NT : PrintT(<<"VERDICT", Traces[i].tid, TLCGet(i), Len(Traces[i].ev) + 1>>)
 =============================================================================
